@@ -131,6 +131,8 @@ def oset_or(eng, a, other, n, st):
         o = lib._seq_of(eng, other, n, st)  # arbitrary enumeration order of an unordered set
     elif isinstance(other, tuple) and other and other[0] in ("emptyset", "emptylist"):
         o = V(TSeq(ety), th.Empty)
+    elif isinstance(other, tuple):
+        o = eng.coerce(other, TSeq(ety), n)        # a python tuple display of values: `terms | (term,)`
     else:
         o = other
     eng.uses_axioms(seq_axioms, ety)
